@@ -84,7 +84,7 @@ func (values SortValues) Serialize(buf *bytes.Buffer) {
 		case IntegerType, BooleanType:
 			serializeInteger(buf, value.Int64ToStr(val.Integer))
 		case FloatType:
-			serializeFloat(buf, value.Float64ToStr(val.Float, false))
+			serializeFloat(buf, floatKeyText(val.Float))
 		case DatetimeType:
 			serializeDatetimeFromUnix(buf, val.DatetimeSec, val.Datetime)
 		case StringType:
